@@ -195,7 +195,19 @@ pub struct FuzzSpec
 /// class cannot excuse a crash of another.
 pub fn note_case_class(class: &str)
 {
+	CLASS_NOTED.store(1, Ordering::SeqCst);
 	eprintln!("CASE-CLASS {}", class);
+}
+
+static CLASS_NOTED: AtomicU64 = AtomicU64::new(0);
+
+/// before every case: a class noted for an earlier case does not apply
+fn forget_case_class()
+{
+	if CLASS_NOTED.swap(0, Ordering::SeqCst) != 0
+	{
+		eprintln!("CASE-CLASS -");
+	}
 }
 
 
@@ -489,6 +501,7 @@ pub fn worker_main(checks: &[Box<dyn Check>])
 				replay,
 			};
 			let mut c = Choices::new(&data);
+			forget_case_class();
 			let out = stream.run(idx, &mut c, &ctx);
 			let mut agg = Agg::default();
 			caseout_to_agg(&mut agg, idx, out, true);
@@ -530,6 +543,7 @@ pub fn worker_main(checks: &[Box<dyn Check>])
 					Vec::new()
 				};
 				let mut c = Choices::new(&data);
+				forget_case_class();
 				let mut out = stream.run(i, &mut c, &ctx);
 				if clen > 0
 				{
@@ -705,8 +719,8 @@ fn classify_death(status: Option<std::process::ExitStatus>, tail: &str) -> Strin
 	// the class noted last by the stream, if any (see note_case_class)
 	match tail.lines().rev().find(|l| l.starts_with("CASE-CLASS "))
 	{
-		Some(l) => format!("{} [case: {}]", base, l[11..].trim()),
-		None => base,
+		Some(l) if l[11..].trim() != "-" => format!("{} [case: {}]", base, l[11..].trim()),
+		_ => base,
 	}
 }
 
